@@ -492,6 +492,9 @@ def fresh(shape, name, wf, env=None):
         return IntMap(lambda k: z3.BoolVal(False), val, 0, lambda p: z3.IntVal(-1), lambda k: z3.IntVal(-1))
     if isinstance(shape, FnOf):
         args = shape.args or [Real] * shape.arity
+        if not args:
+            cst = z3.Const(uid(name), z3sort(shape.ret.sort))
+            return UFun(name, lambda: cst)
         f = z3.Function(uid(name), *[z3sort(a.sort) for a in args], z3sort(shape.ret.sort))
         on_call = None
         if shape.track:
